@@ -113,6 +113,19 @@ let sender name lines =
              | None -> refused := Some (i, "the model refuses the step (the implementation did what the code constraints forbid): " ^ String.concat " " (List.tl e))
              | Some (s', o) -> st := s'; outs := !outs @ o)
       end) evs;
+    (* fix 3b069d1: a gather clears the retransmit mark of a marked chunk whose message was abandoned in the meantime (no
+       log line).  Which of these chunks the loop visited before it stopped on the window is read from the state after
+       the event; the model step PrUnmark refuses anything but a marked chunk of an abandoned message. *)
+    if !refused = None then begin
+      let post_rtx = Hashtbl.create 16 in
+      List.iter (fun (c : M.pr_chunk) -> Hashtbl.replace post_rtx (sz c.M.pr_tsn) c.M.pr_rtx) post.M.pr_infl;
+      List.iter (fun (c : M.pr_chunk) ->
+        if !refused = None && c.M.pr_rtx && (try not (Hashtbl.find post_rtx (sz c.M.pr_tsn)) with Not_found -> false) then
+          match M.pr_step !st (M.PrUnmark c.M.pr_tsn) with
+          | Some (s', _) -> bump "mark-of-abandoned-chunk-cleared"; st := s'
+          | None -> refused := Some (0, "retransmit mark of tsn " ^ sz c.M.pr_tsn ^ " disappeared although the chunk was neither retransmitted, acknowledged nor abandoned"))
+        (!st).M.pr_infl
+    end;
     (match !refused with
      | Some (i, what) -> report name i what "" ""
      | None ->
